@@ -399,6 +399,56 @@ def r6(ctx, prog):
         ctx.ob('C12.R6', '%s|no-use-after-delete' % f.name, not bad, 'no use of conn is reachable after delete conn' if not bad else 'conn used at %s after being deleted' % f.loc(bad[0]['i']), where=f.loc(d['i']))
 
 
+def r12(ctx, prog):
+    ctx.rule('C12.R12', 'A4 consume / flush pairing in the server: what parse() reports as consumed is removed from the receive buffer before the next parse or dispatch; every '
+             'advance of res_index follows the send of exactly one response; a parked response that was sent is erased, and the parked map is searched again (with the '
+             'advanced index) before the flush loop tests its iterator again', floor=5)
+    IMPL = 'tbox::http::server::Server::Impl'
+    f = prog.fn1(IMPL + '::onTcpReceived')
+    ps = [c for c in f.calls() if c.get('fn') == 'parse']
+    if len(ps) != 1:
+        raise AnalysisBroken('onTcpReceived: expected one parse() call, found %d' % len(ps))
+    holder = None
+    for st in f.stmts:
+        if st and st['k'] == 'DeclStmt':
+            for d in st['decls']:
+                if 'init' in d and ps[0]['i'] in set(f.walk(d['init'])):
+                    holder = d
+    hr = [c for c in f.calls() if c.get('fn') == 'hasRead' and c.get('args') and holder is not None and (f.s(f.strip_casts(c['args'][0])) or {}).get('d') == holder['d']]
+    nxt = [q.pt(f, c) for c in f.calls() if c.get('fn') in ('getRequest', 'state')] + [q.pt(f, ps[0])]
+    pp = q.pt(f, ps[0])
+    ok = bool(hr) and not any(f.cfg.exists_path(pp, x, avoid=q.pts(f, hr)) for x in nxt if x is not None)
+    ctx.ob('C12.R12', '%s|consume-parsed' % f.name, ok, 'buff.hasRead(<parse result>) precedes every use of the parser state and the next parse' if ok else
+           'the bytes parse() reports as consumed are not removed from the buffer before the parser is consulted again: the same request is parsed and dispatched over and over',
+           where=f.loc(ps[0]['i']))
+    g = prog.fn1(IMPL + '::commitRespond')
+    sends = [c for c in g.calls() if c.get('fn') == 'send' and c.get('obj') is not None and (g.field_of(c['obj']) or '').endswith('tcp_server_')]
+    incs = [st for st in g.stmts if st and st['k'] == 'UnaryOperator' and st.get('op') == '++' and g.path(st['ch'][0]).endswith('res_index')]
+    if not sends or not incs:
+        raise AnalysisBroken('commitRespond: sends / res_index increments not found (%d/%d)' % (len(sends), len(incs)))
+    for inc in incs:
+        ip = q.pt_or_term(g, inc)
+        others = [q.pt_or_term(g, x) for x in incs if x is not inc]
+        ok = any(g.cfg.dominates(q.pt(g, s_), ip) and g.cfg.exists_path(q.pt(g, s_), ip, avoid=[o for o in others if o]) for s_ in sends)
+        ctx.ob('C12.R12', '%s|send-before-advance@%s' % (g.name, g.loc(inc['i']).split(':')[-1]), ok, 'this advance of res_index follows the send of one response' if ok else
+               'res_index advances here without a response having been sent for it: the response at that index is skipped and never written', where=g.loc(inc['i']))
+    loops = [st for st in g.stmts if st and st['k'] == 'WhileStmt' and st.get('cond') is not None and any(x['i'] in set(g.walk(st['i'])) for x in incs)]
+    ers = [c for c in g.calls() if c.get('fn') == 'erase' and c.get('obj') is not None and 'res_buff' in g.path(c['obj'])]
+    for lp in loops:
+        cp = g.cfg.point_of(lp['cond'])
+        body_sends = [s_ for s_ in sends if s_['i'] in set(g.walk(lp['i']))]
+        body_ers = [e for e in ers if e['i'] in set(g.walk(lp['i']))]
+        itv = [g.stmts[x].get('d') for x in g.walk(lp['cond']) if g.stmts[x]['k'] == 'DeclRefExpr' and g.stmts[x].get('dk') == 'Var']
+        reassign = [st for st in g.stmts if st and st['i'] in set(g.walk(lp['i'])) and ((st['k'] == 'BinaryOperator' and st.get('op') == '=') or (st['k'] == 'CXXOperatorCallExpr' and st.get('op') == '=')) and
+                    (g.s(g.strip_casts(st['ch'][0] if st['k'] == 'BinaryOperator' else st.get('obj', -1))) or {}).get('d') in itv and any(c.get('fn') == 'find' for c in q.subtree_calls(g, st['i']))]
+        ok1 = bool(body_sends) and bool(body_ers) and all(not g.cfg.exists_path(q.pt(g, s_), cp, avoid=q.pts(g, body_ers)) for s_ in body_sends)
+        ctx.ob('C12.R12', '%s|sent-then-erased' % g.name, ok1, 'a parked response that was sent is erased before the loop goes round' if ok1 else
+               'a parked response is sent and not erased on the way back to the loop test: it stays parked (and is deleted twice later)', where=g.loc(lp['i']))
+        ok2 = bool(reassign) and all(not g.cfg.exists_path(q.pt(g, e), cp, avoid=[q.pt_or_term(g, r_) for r_ in reassign]) for e in body_ers)
+        ctx.ob('C12.R12', '%s|search-again' % g.name, ok2, 'after the erase the map is searched again before the iterator is tested' if ok2 else
+               'after res_buff.erase(iter) the loop tests iter again without a new find(): the erased iterator is compared and dereferenced', where=g.loc(lp['i']))
+
+
 def run(ctx):
     prog = extract('ALL' if ctx.tier == 'thorough' else scope_units())
     ctx.guard(r1, ctx, prog)
@@ -410,6 +460,7 @@ def run(ctx):
     ctx.guard(r7, ctx, prog)
     ctx.guard(r8, ctx, prog)
     ctx.guard(r10, ctx, prog)
+    ctx.guard(r12, ctx, prog)
     ctx.guard(harden.run_threshold, ctx, prog, 'C12.R11', lambda g: g.file.startswith(MODULES + '/http/server/'), 'HTTP request parser', 1)
     ctx.guard(harden.run, ctx, prog, 'C12.R9', recv_entries(prog),
               lambda g: g.file.startswith(MODULES + '/http/') or g.file.startswith(MODULES + '/util/'), 'HTTP receive/commit path')
